@@ -82,7 +82,7 @@ func term(v ssa.Value, depth int, onstack map[ssa.Value]bool) string {
 	if v == nil {
 		return "nil"
 	}
-	if depth > 14 {
+	if depth > 40 {
 		return "…"
 	}
 	switch x := v.(type) {
@@ -142,7 +142,9 @@ func term(v ssa.Value, depth int, onstack map[ssa.Value]bool) string {
 	case *ssa.BinOp:
 		return "(" + term(x.X, depth+1, onstack) + " " + x.Op.String() + " " + term(x.Y, depth+1, onstack) + ")"
 	case *ssa.Phi:
-		if onstack[x] || depth > 6 {
+		if onstack[x] || depth > 6 || loopCarried(x) {
+			// loop-carried values are rendered by name so that the term does not depend on
+			// where the cycle is entered
 			return "phi:" + x.Comment
 		}
 		onstack[x] = true
@@ -323,4 +325,35 @@ func freeVarWritten(fn *ssa.Function, fv *ssa.FreeVar, depth int) bool {
 		}
 	}
 	return false
+}
+
+// loopCarried reports whether the phi (transitively, through phis, arithmetic and append)
+// depends on itself.
+func loopCarried(p *ssa.Phi) bool {
+	seen := map[ssa.Value]bool{}
+	var walk func(v ssa.Value, d int) bool
+	walk = func(v ssa.Value, d int) bool {
+		if d > 6 || v == nil || seen[v] {
+			return false
+		}
+		seen[v] = true
+		switch x := v.(type) {
+		case *ssa.Phi:
+			for _, e := range x.Edges {
+				if e == p || walk(e, d+1) {
+					return true
+				}
+			}
+		case *ssa.BinOp:
+			return x.X == p || x.Y == p || walk(x.X, d+1) || walk(x.Y, d+1)
+		case *ssa.Convert:
+			return x.X == p || walk(x.X, d+1)
+		case *ssa.Call:
+			if b, ok := x.Call.Value.(*ssa.Builtin); ok && b.Name() == "append" && len(x.Call.Args) > 0 {
+				return x.Call.Args[0] == p || walk(x.Call.Args[0], d+1)
+			}
+		}
+		return false
+	}
+	return walk(p, 0)
 }
